@@ -420,7 +420,7 @@ def field_nullability_grid(ctx):
                     for default in (None, "-1"):
                         tv, nv = ranges[tv_name], ranges[nv_name]
                         mk = lambda r: None if r is None else I.call(VR, [r[0], r[1]], {}, Run(), None)
-                        inst = InstV(PF, {"name": "Fld", "type": m, "versions": mk((0, INF)), "nullableVersions": mk(nv), "ignorable": ignorable,
+                        inst = model_instance(PF, {"name": "Fld", "type": m, "versions": mk((0, INF)), "nullableVersions": mk(nv), "ignorable": ignorable,
                                           "mapKey": False, "about": None, "entityType": None, "tag": None if tv is None else 0,
                                           "taggedVersions": mk(tv), "default": default})
                         for version in (0, 1, 2, 3):
@@ -528,6 +528,19 @@ def naming_rows(ctx):
     return rows
 
 
+def model_instance(cls, attrs):
+    """An instance of a pydantic model class of the generator: the given attributes plus the declared defaults of every other field
+    (so that a definition that omits a key looks as it does after parsing, and a newly added optional key does not look like a crash)."""
+    full = {}
+    for c in reversed([c for c in cls.mro if isinstance(c, ClassV)]):
+        anns = c.ns.get("__annotations__")
+        for fname in (anns.d if isinstance(anns, DictV) else {}):
+            if fname in c.ns and not isinstance(c.ns[fname], (FuncV, WrapV)) and not fname.startswith("_"):
+                full[fname] = c.ns[fname]
+    full.update(attrs)
+    return InstV(cls, full)
+
+
 def _parse_field_line(line):
     """`    name: ANN = field(k=v, ...)` -> (name, annotation source, {kw: source}) or None."""
     try:
@@ -572,10 +585,10 @@ def struct_field_lines(ctx):
                     for kind in ("array", "struct"):
                         try:
                             if kind == "array":
-                                fld = InstV(EAF, dict(base, type=I.call(EAT, ["Item"], {}, Run(), None)))
+                                fld = model_instance(EAF, dict(base, type=I.call(EAT, ["Item"], {}, Run(), None)))
                                 line = I.call(f_arr, [fld, version, "Item"], {}, Run(), None)
                             else:
-                                fld = InstV(EF, dict(base, type=I.call(ET_, ["Item"], {}, Run(), None), default=None))
+                                fld = model_instance(EF, dict(base, type=I.call(ET_, ["Item"], {}, Run(), None), default=None))
                                 line = I.call(f_ent, [fld, version], {}, Run(), None)
                         except Raised as r:
                             rows.append({"ok": False, "kind": kind, "case": case, "message": f"raises {short_exc(r.cls)}"})
@@ -1092,43 +1105,88 @@ def primitive_array_lines(ctx):
     by_value = {m.value: m for m in members}
     INF = float("inf")
     mk = lambda r: None if r is None else I.call(VR, [r[0], r[1]], {}, Run(), None)
-    problems = {"nullability": [], "tag": [], "name": [], "items": [], "other": []}
+    problems = {"nullability": [], "tag": [], "name": [], "items": [], "coherence": [], "other": []}
     n = 0
     for kt in ("int32", "string", "uuid"):
         for tv in (None, (1, INF)):
             for nv in (None, (2, INF)):
-                fld = InstV(PAF, {"name": "ReplicaIds", "versions": mk((0, INF)), "nullableVersions": mk(nv), "ignorable": False, "mapKey": False,
-                                  "about": None, "entityType": None, "tag": None if tv is None else 2, "taggedVersions": mk(tv),
-                                  "type": I.call(PAT, [by_value[kt]], {}, Run(), None)})
-                for version in (0, 1, 2, 3):
-                    n += 1
-                    case = f"[]{kt} taggedVersions={'1+' if tv else None} nullableVersions={'2+' if nv else None} version={version}"
-                    try:
-                        line = I.call(fn, [], {"field": fld, "inner_type": by_value[kt], "version": version, "custom_type": None}, Run(), None)
-                    except Raised as r:
-                        problems["other"].append(f"{case}: raises {short_exc(r.cls)}")
-                        continue
-                    except Limit as e:
-                        raise AnalysisError(f"generate_primitive_array_field not understood: {e}")
-                    if not isinstance(line, str):
-                        raise AnalysisError(f"generate_primitive_array_field({case}) is not evaluated to a constant string: {line!r}")
-                    parsed = _parse_field_line(line)
-                    if parsed is None:
-                        problems["other"].append(f"{case}: emits {line!r}")
-                        continue
-                    name, ann, kws = parsed
-                    tagged = tv is not None and tv[0] <= version
-                    nullable = nv is not None and nv[0] <= version
-                    if name != "replica_ids":
-                        problems["name"].append(f"{case}: named {name!r}")
-                    if ann.replace(" ", "").endswith("|None") != nullable:
-                        problems["nullability"].append(f"{case}: annotated {ann!r}")
-                    inner = ann.replace(" ", "").removesuffix("|None")
-                    want_inner = {"int32": "tuple[i32,...]", "string": "tuple[str,...]", "uuid": "tuple[uuid.UUID|None,...]"}[kt]
-                    if inner != want_inner:
-                        problems["items"].append(f"{case}: items annotated {ann!r}, expected {want_inner} (a uuid is modelled optional everywhere: "
-                                                 f"the all-zero UUID reads as None)")
-                    md = ast.literal_eval(kws["metadata"]) if "metadata" in kws else {}
-                    if md.get("tag") != (2 if tagged else None) or md.get("kafka_type") != kt:
-                        problems["tag"].append(f"{case}: metadata {md}")
+              for dflt in ((None, "null") if nv is not None and kt == "int32" else (None,)):
+                  fld = model_instance(PAF, {"name": "ReplicaIds", "default": dflt, "versions": mk((0, INF)), "nullableVersions": mk(nv), "ignorable": False, "mapKey": False,
+                                    "about": None, "entityType": None, "tag": None if tv is None else 2, "taggedVersions": mk(tv),
+                                    "type": I.call(PAT, [by_value[kt]], {}, Run(), None)})
+                  for version in (0, 1, 2, 3):
+                      n += 1
+                      case = f"[]{kt} taggedVersions={'1+' if tv else None} nullableVersions={'2+' if nv else None}" + \
+                          (f" default={dflt!r}" if dflt else "") + f" version={version}"
+                      try:
+                          line = I.call(fn, [], {"field": fld, "inner_type": by_value[kt], "version": version, "custom_type": None}, Run(), None)
+                      except Raised as r:
+                          problems["other"].append(f"{case}: raises {short_exc(r.cls)}")
+                          continue
+                      except Limit as e:
+                          raise AnalysisError(f"generate_primitive_array_field not understood: {e}")
+                      if not isinstance(line, str):
+                          raise AnalysisError(f"generate_primitive_array_field({case}) is not evaluated to a constant string: {line!r}")
+                      parsed = _parse_field_line(line)
+                      if parsed is None:
+                          problems["other"].append(f"{case}: emits {line!r}")
+                          continue
+                      name, ann, kws = parsed
+                      tagged = tv is not None and tv[0] <= version
+                      nullable = nv is not None and nv[0] <= version
+                      if name != "replica_ids":
+                          problems["name"].append(f"{case}: named {name!r}")
+                      if ann.replace(" ", "").endswith("|None") != nullable:
+                          problems["nullability"].append(f"{case}: annotated {ann!r}")
+                      if kws.get("default") == "None" and not ann.replace(" ", "").endswith("|None"):
+                          problems["coherence"].append(f"{case}: default None on a field annotated {ann!r}")
+                      inner = ann.replace(" ", "").removesuffix("|None")
+                      want_inner = {"int32": "tuple[i32,...]", "string": "tuple[str,...]", "uuid": "tuple[uuid.UUID|None,...]"}[kt]
+                      if inner != want_inner:
+                          problems["items"].append(f"{case}: items annotated {ann!r}, expected {want_inner} (a uuid is modelled optional everywhere: "
+                                                   f"the all-zero UUID reads as None)")
+                      md = ast.literal_eval(kws["metadata"]) if "metadata" in kws else {}
+                      if md.get("tag") != (2 if tagged else None) or md.get("kafka_type") != kt:
+                          problems["tag"].append(f"{case}: metadata {md}")
     return problems, n
+
+
+
+def field_validator_rows(ctx):
+    """G19: the root validators of the field model, evaluated in pydantic's order (pre validators, defaults filled in, post validators) on
+    the key combinations a definition can have.  The message-definition format: `tag` and `taggedVersions` come together or not at all;
+    `versions` may be missing only when `taggedVersions` is there (then it is the same range)."""
+    I = ctx.interp
+    pm = _mod(ctx, "codegen.parser")
+    BF = pm.env.vars.get("_BaseField")
+    if not isinstance(BF, ClassV):
+        raise AnalysisError("anchor vanished: codegen.parser._BaseField")
+    pre = I.getattr_(BF, "use_tagged_versions_as_fallback_for_versions", Run(), None)
+    post = I.getattr_(BF, "validate_tag_tagged_versions_composite", Run(), None)
+    cases = [
+        ({"name": "A", "versions": "0+"}, "ok", {"versions": "0+", "tag": None, "taggedVersions": None}),
+        ({"name": "A", "versions": "0+", "tag": 1, "taggedVersions": "2+"}, "ok", {"versions": "0+", "tag": 1, "taggedVersions": "2+"}),
+        ({"name": "A", "tag": 1, "taggedVersions": "2+"}, "ok", {"versions": "2+", "tag": 1, "taggedVersions": "2+"}),
+        ({"name": "A", "versions": "0+", "tag": 1}, "ValueError", None),
+        ({"name": "A", "versions": "0+", "taggedVersions": "2+"}, "ValueError", None),
+        ({"name": "A"}, "ValueError", None),
+    ]
+    rows = []
+    for given, want, want_vals in cases:
+        case = f"field definition keys {given}"
+        try:
+            vals = I.call(pre, [DictV(dict(given))], {}, Run(), None)
+            if not isinstance(vals, DictV):
+                raise AnalysisError(f"pre validator returns {vals!r}")
+            full = {"tag": None, "taggedVersions": None, "nullableVersions": None}
+            full.update(vals.d)
+            out = I.call(post, [DictV(full)], {}, Run(), None)
+            got, got_vals = "ok", {k: out.d.get(k) for k in ("versions", "tag", "taggedVersions")} if isinstance(out, DictV) else None
+        except Raised as r:
+            got, got_vals = short_exc(r.cls).split(":")[-1], None
+        except Limit as e:
+            raise AnalysisError(f"_BaseField validators not understood: {e}")
+        ok = got == want and (want_vals is None or got_vals == want_vals)
+        rows.append({"ok": ok, "case": case, "message": f"{case}: the validators give {got}{'' if got_vals is None else ' ' + str(got_vals)}; the format "
+                                                          f"prescribes {want}{'' if want_vals is None else ' ' + str(want_vals)}"})
+    return rows
